@@ -137,7 +137,10 @@ class C03(Check):
         salt = 0
         for si, co in cand:
             salt += 1
-            ops.append({"op": "write", "s": si, "co": co, "salt": salt})
+            ops.append({"op": "write", "s": si, "co": co, "salt": salt,
+                        "present": rng.choice(
+                            ["c", "c", "c", "fortran", "bigendian", "strided",
+                             "readonly", "transposed_view"])})
             written.append((si, co))
             r = rng.random()
             if r < 0.25:
@@ -226,6 +229,28 @@ class C03(Check):
         return dsutil.voxels(scn["dtype"], scn["nchan"], co, salt,
                              labels or None)
 
+    def _present(self, arr, how):
+        """The same values handed over in another memory presentation: the
+        I/O layer takes any 4-D array."""
+        import numpy as np
+        if how == "fortran":
+            return np.asfortranarray(arr)
+        if how == "bigendian":
+            return arr.astype(arr.dtype.newbyteorder(">"))
+        if how == "strided":
+            big = np.zeros(tuple(2 * s + 1 for s in arr.shape), arr.dtype)
+            view = big[1::2, 1::2, 1::2, 1::2]
+            view[...] = arr
+            return view
+        if how == "readonly":
+            a = arr.copy()
+            a.setflags(write=False)
+            return a
+        if how == "transposed_view":
+            return np.ascontiguousarray(arr.transpose(3, 2, 1, 0)).transpose(
+                3, 2, 1, 0)
+        return arr
+
     def execute(self, trace):
         import numpy as np
         from sim import dsutil
@@ -249,6 +274,7 @@ class C03(Check):
         model = {}
         flags = set()
         compared = 0
+        held = []
 
         def open_writer():
             if scn["kind"] == "sharded":
@@ -285,7 +311,17 @@ class C03(Check):
                 co = tuple(op["co"])
                 if name == "write":
                     arr = self._arr(scn, co, op["salt"])
-                    st, v = sut(pio.write_chunk, arr, key, co)
+                    given = self._present(arr, op.get("present", "c"))
+                    keep_given = given.copy()
+                    st, v = sut(pio.write_chunk, given, key, co)
+                    if op.get("present", "c") != "c":
+                        flags.add("present")
+                        res.probe("presentation_" + op["present"])
+                    if st == "ok" and not np.array_equal(given, keep_given):
+                        res.violate("C03/input-modified",
+                                    f"op {i}: write_chunk modified the "
+                                    "caller's array")
+                        break
                     if st == "exc":
                         res.violate(
                             "C03/write-fails",
@@ -379,7 +415,10 @@ class C03(Check):
                                         f"{scn['jpeg_quality']} has max "
                                         f"error {err} > {JPEG_TOL}")
                             break
-                    elif not np.array_equal(got, want):
+                    elif np.array_equal(got, want):
+                        held.append((i, key, co, got, want))
+                    if scn["enc"] != "jpeg" and not np.array_equal(got,
+                                                                   want):
                         nbad = int(np.sum(got != want))
                         res.violate("C03/values",
                                     f"op {i}: read_chunk({key}, {co}) "
@@ -388,6 +427,18 @@ class C03(Check):
                                     f"(encoding {scn['enc']})",
                                     key=f"C03/values/{scn['enc']}")
                         break
+        # arrays handed out earlier must still hold what was read: results of
+        # different reads must not share state
+        if not res.violations:
+            for (i, key, co, got, want) in held:
+                if not np.array_equal(got, want):
+                    res.violate("C03/result-aliased",
+                                f"op {i}: the array returned by read_chunk("
+                                f"{key}, {co}) changed after later reads "
+                                "(results share memory)")
+                    break
+            if len(held) > 1:
+                res.probe("held_results_rechecked")
         if scn["kind"] == "sharded" and compared:
             res.probe("sharded_roundtrip")
         return self._fin(res, log, fs, scn, flags, compared)
